@@ -500,6 +500,11 @@ func (t *Table) Put(input *types.PutItemInput) (map[string]*types.Item, error) {
 		}
 	}
 
+	// a write is all-or-nothing: check the index keys before touching anything
+	if err := t.validateIndexKeys(item); err != nil {
+		return nil, types.NewError("ValidationException", err.Error(), nil)
+	}
+
 	t.setItem(key, item)
 
 	for _, index := range t.Indexes {
@@ -510,6 +515,16 @@ func (t *Table) Put(input *types.PutItemInput) (map[string]*types.Item, error) {
 	}
 
 	return item, nil
+}
+
+func (t *Table) validateIndexKeys(item map[string]*types.Item) error {
+	for _, index := range t.Indexes {
+		if _, err := index.keySchema.GetKey(t.AttributesDef, item); err != nil {
+			return err
+		}
+	}
+
+	return nil
 }
 
 func (t *Table) interpreterUpdate(input interpreter.UpdateInput) error {
@@ -562,6 +577,8 @@ func (t *Table) Update(input *types.UpdateItemInput) (map[string]*types.Item, er
 	}
 
 	oldItem := copyItem(item)
+	// work on a copy, the stored item must not change when the update fails
+	item = copyItem(item)
 
 	err = t.interpreterUpdate(interpreter.UpdateInput{
 		TableName:  t.Name,
@@ -572,6 +589,10 @@ func (t *Table) Update(input *types.UpdateItemInput) (map[string]*types.Item, er
 	})
 	if err != nil {
 		return nil, err
+	}
+
+	if err := t.validateIndexKeys(item); err != nil {
+		return nil, types.NewError("ValidationException", err.Error(), nil)
 	}
 
 	t.setItem(key, item)
